@@ -808,8 +808,8 @@ func (a *art) runLoadDir(mu Mut) (string, string) {
 					return false
 				}
 				o, _ := list[(int(mu.B))%len(list)].(map[string]any)
-				if o["path"] == f["path"] {
-					return false
+				if o["path"] == f["path"] || o["sha256"] == f["sha256"] {
+					return false // byte-identical fragments (e.g. two one-record shards with equal records): the edit changes nothing
 				}
 				f["path"] = o["path"]
 			case "mf_phase":
